@@ -66,14 +66,18 @@ Proof.
   - destruct (IH ip n H) as (pg & Hin & Hip & Ho). exists pg. split; [right; exact Hin|]. auto.
 Qed.
 
-Lemma first_sibling_some fs req ae : forall encs n e,
-  first_sibling fs req ae encs = Some (n, e) ->
-  exists ext, In (e, ext) encs /\ accepts ae e = true /\ fs_open fs (req ++ ext) = Some n.
+Lemma first_sibling_some fs hide req ae : forall encs n e,
+  first_sibling fs hide req ae encs = Some (n, e) ->
+  exists ext, In (e, ext) encs /\ accepts ae e = true /\ fs_open fs (req ++ ext) = Some n /\
+              n_dir n = false /\ is_hidden fs hide n = false.
 Proof.
   induction encs as [|[name ext] r IH]; intros n e H; simpl in H; [discriminate|].
   destruct (accepts ae name) eqn:A.
   - destruct (fs_open fs (req ++ ext)) as [m|] eqn:E.
-    + injection H as <- <-. exists ext. split; [left; reflexivity|]. auto.
+    + destruct (n_dir m || is_hidden fs hide m) eqn:Hh.
+      * destruct (IH n e H) as (x & Hin & Ha & Ho). exists x. split; [right; exact Hin|]. auto.
+      * apply orb_false_iff in Hh as [Hd Hh].
+        injection H as <- <-. exists ext. split; [left; reflexivity|]. auto.
     + destruct (IH n e H) as (x & Hin & Ha & Ho). exists x. split; [right; exact Hin|]. auto.
   - destruct (IH n e H) as (x & Hin & Ha & Ho). exists x. split; [right; exact Hin|]. auto.
 Qed.
@@ -84,7 +88,7 @@ Qed.
 Lemma serve_file_serve fs hide pages prefix m req ae n enc :
   serve_file fs hide pages prefix m req ae = Serve n enc ->
   is_get_head m = true /\ In n fs /\ served_from pages req ae enc (n_path n) /\
-  (enc = None -> n_dir n = false /\ is_hidden fs hide n = false).
+  n_dir n = false /\ is_hidden fs hide n = false.
 Proof.
   unfold serve_file. destruct (is_get_head m); [|discriminate]. simpl negb. cbv iota.
   destruct (bad_name req); [discriminate|].
@@ -106,11 +110,11 @@ Proof.
   destruct (n_dir d1 || is_hidden fs hide d1) eqn:Eg; [discriminate|].
   apply orb_false_iff in Eg as [Hnd Hnh].
   intros H. split; [reflexivity|].
-  destruct (first_sibling fs req1 ae gen_static_encodings) as [[sn e]|] eqn:Es.
+  destruct (first_sibling fs hide req1 ae gen_static_encodings) as [[sn e]|] eqn:Es.
   - injection H as <- <-.
-    destruct (first_sibling_some _ _ _ _ _ _ Es) as (ext & Hin & Ha & Ho).
+    destruct (first_sibling_some _ _ _ _ _ _ _ Es) as (ext & Hin & Ha & Ho & Hd & Hh).
     apply fs_open_some in Ho as (Hfs & Hp & _).
-    split; [exact Hfs|]. split; [|discriminate].
+    split; [exact Hfs|]. split; [|split; [exact Hd|exact Hh]].
     exists req1. split; [exact Hbase|]. exists ext. auto.
   - injection H as <- <-.
     apply fs_open_some in Ho1 as (Hfs & Hp & _).
@@ -220,15 +224,15 @@ Qed.
 (* ------------------------------------------------------------------------------------------ *)
 (* browse: listings and archives                                                               *)
 
-Lemma browse_cases fs hide pages confs m req ae archive :
-  let out := browse fs hide pages confs m req ae archive in
-  out = serve_file fs hide pages [SLASH] m req ae \/
+Lemma browse_cases fs hide pages prefix confs m req ae archive :
+  let out := browse fs hide pages prefix confs m req ae archive in
+  out = serve_file fs hide pages prefix m req ae \/
   out = Status 501 \/ out = Status 404 \/
-  (exists u, out = Redirect 301 (http_redirect req (escape_path (u ++ [SLASH]))) /\
+  (exists u, out = Redirect 301 (http_redirect req (escape_path (trim_dslash u ++ [SLASH]))) /\
              u = (match req with [] => [SLASH] | _ => req end) /\ ends_with_slash u = false /\
              exists d, fs_open fs req = Some d /\ n_dir d = true) \/
   (out = Listing (filter (fun k => negb (is_hidden fs hide k)) (children fs (jail req))) /\ archive = []) \/
-  (out = Archive (descendants fs (jail req)) /\ archive <> []).
+  (out = Archive (archive_members fs hide (jail req)) /\ archive <> []).
 Proof.
   unfold browse. cbv zeta.
   destruct (find _ confs) as [bc|]; [|left; reflexivity].
@@ -248,12 +252,12 @@ Proof.
     exists d. auto.
 Qed.
 
-Lemma listing_sound fs hide pages confs m req ae archive kids :
-  browse fs hide pages confs m req ae archive = Listing kids ->
+Lemma listing_sound fs hide pages prefix confs m req ae archive kids :
+  browse fs hide pages prefix confs m req ae archive = Listing kids ->
   forall k, In k kids -> In k fs /\ is_child (jail req) (n_path k) = true /\ is_hidden fs hide k = false.
 Proof.
   intros H k Hk.
-  pose proof (browse_cases fs hide pages confs m req ae archive) as C. cbv zeta in C. rewrite H in C.
+  pose proof (browse_cases fs hide pages prefix confs m req ae archive) as C. cbv zeta in C. rewrite H in C.
   destruct C as [C|[C|[C|[C|[C|C]]]]].
   - symmetry in C. exfalso. revert C. unfold serve_file.
     repeat match goal with
@@ -279,19 +283,45 @@ Proof.
          end.
 Qed.
 
-Lemma archive_sound fs hide pages confs m req ae archive ms :
-  browse fs hide pages confs m req ae archive = Archive ms ->
-  forall k, In k ms -> In k fs /\ is_desc (jail req) (n_path k) = true.
+(* what the archive walker keeps: descendants that are not hidden and do not lie below a hidden
+   directory (itself below the archived one) *)
+Lemma archive_members_in fs hide d k :
+  In k (archive_members fs hide d) ->
+  In k fs /\ is_desc d (n_path k) = true /\ is_hidden fs hide k = false /\
+  (forall a, In a fs -> n_dir a = true -> is_desc d (n_path a) = true ->
+             is_desc (n_path a) (n_path k) = true -> is_hidden fs hide a = false).
+Proof.
+  unfold archive_members, descendants. intros H.
+  apply filter_In in H as [H Ha]. apply filter_In in H as [Hin Hd].
+  unfold archived in Ha. apply negb_true_iff in Ha.
+  assert (Hcut : forall a, In a fs -> cut_by fs hide d k a = false).
+  { intros a Hain. destruct (cut_by fs hide d k a) eqn:E; [|reflexivity].
+    assert (X : existsb (cut_by fs hide d k) fs = true) by (apply existsb_exists; exists a; auto).
+    congruence. }
+  split; [exact Hin|]. split; [exact Hd|]. split.
+  - pose proof (Hcut k Hin) as C. unfold cut_by in C. rewrite Hd, beq_refl in C.
+    cbn [orb] in C. rewrite !andb_true_r in C. exact C.
+  - intros a Hain Hdir Hda Hak. pose proof (Hcut a Hain) as C. unfold cut_by in C.
+    rewrite Hda, Hdir, Hak in C. cbn [andb] in C. rewrite orb_true_r in C.
+    rewrite !andb_true_r in C. exact C.
+Qed.
+
+Lemma archive_sound fs hide pages prefix confs m req ae archive ms :
+  browse fs hide pages prefix confs m req ae archive = Archive ms ->
+  forall k, In k ms ->
+    In k fs /\ is_desc (jail req) (n_path k) = true /\ is_hidden fs hide k = false /\
+    (forall a, In a fs -> n_dir a = true -> is_desc (jail req) (n_path a) = true ->
+               is_desc (n_path a) (n_path k) = true -> is_hidden fs hide a = false).
 Proof.
   intros H k Hk.
-  pose proof (browse_cases fs hide pages confs m req ae archive) as C. cbv zeta in C. rewrite H in C.
+  pose proof (browse_cases fs hide pages prefix confs m req ae archive) as C. cbv zeta in C. rewrite H in C.
   destruct C as [C|[C|[C|[C|[C|C]]]]].
   - symmetry in C. exfalso. exact (serve_file_not_archive _ _ _ _ _ _ _ _ C).
   - discriminate.
   - discriminate.
   - destruct C as (u & C & _). discriminate.
   - destruct C as [C _]. discriminate.
-  - destruct C as [C _]. injection C as ->. apply filter_In in Hk. exact Hk.
+  - destruct C as [C _]. injection C as ->. apply archive_members_in. exact Hk.
 Qed.
 
 Lemma is_desc_prefix d p : is_desc d p = true -> has_prefix p d = true.
@@ -498,51 +528,61 @@ Proof.
   rewrite <- (rev_involutive p), E. reflexivity.
 Qed.
 
-Lemma static_redirect fs hide pages m req ae code loc :
-  rooted req -> serve_file fs hide pages [SLASH] m req ae = Redirect code loc ->
+(* [prefix] is the site's path prefix ("/" if none): the redirect target is built from
+   prefix ++ req, trimmed of leading double slashes *)
+Lemma static_redirect fs hide pages prefix m req ae code loc :
+  rooted prefix -> rooted req -> serve_file fs hide pages prefix m req ae = Redirect code loc ->
   code = 307 /\ one_slash loc = true /\ same_origin loc = true.
 Proof.
-  intros Hroot. unfold serve_file.
+  intros Hpre Hroot. unfold serve_file.
   destruct (is_get_head m); [|discriminate]. simpl negb. cbv iota.
   destruct (bad_name req); [discriminate|].
   destruct (fs_open fs req) as [d|]; [|discriminate].
-  change (beq [SLASH] [SLASH]) with true. cbv iota.
-  replace (match req with [] => [SLASH] | _ :: _ => req end) with req
-    by (destruct Hroot as (r & ->); reflexivity).
-  destruct (n_dir d && negb (ends_with_slash req)) eqn:E1.
+  set (up0 := if beq prefix [SLASH] then req else prefix ++ req).
+  assert (Hup0 : rooted up0).
+  { unfold up0. destruct (beq prefix [SLASH]); [exact Hroot|].
+    destruct Hpre as (t & ->). eexists. reflexivity. }
+  assert (Hone : up0 = [SLASH] -> req = [SLASH]).
+  { unfold up0. destruct (beq prefix [SLASH]); [auto|].
+    destruct Hpre as (t & ->). destruct Hroot as (r & ->). intros EX.
+    destruct t; discriminate. }
+  replace (match up0 with [] => [SLASH] | _ :: _ => up0 end) with up0
+    by (destruct Hup0 as (r & ->); reflexivity).
+  destruct (n_dir d && negb (ends_with_slash up0)) eqn:E1.
   - intros H. injection H as <- <-. split; [reflexivity|]. apply redirect_ok.
     apply andb_true_iff in E1 as [_ E1]. apply negb_true_iff in E1.
-    apply one_slash_snoc; [apply trim_dslash_one; exact Hroot|].
-    destruct (trim_dslash_suffix req) as (pre & E & Hne).
-    rewrite E in E1. rewrite ends_with_slash_app_suffix in E1; [exact E1|apply Hne; destruct Hroot as (r0 & ->); discriminate].
-  - destruct (negb (n_dir d) && ends_with_slash req) eqn:E2.
+    apply one_slash_snoc; [apply trim_dslash_one; exact Hup0|].
+    destruct (trim_dslash_suffix up0) as (pre & E & Hne).
+    rewrite E in E1. rewrite ends_with_slash_app_suffix in E1; [exact E1|apply Hne; destruct Hup0 as (r0 & ->); discriminate].
+  - destruct (negb (n_dir d) && ends_with_slash up0) eqn:E2.
     + intros H. injection H as <- <-. split; [reflexivity|].
       apply andb_true_iff in E2 as [_ E2].
-      pose proof (ends_with_slash_drop_last req E2) as EX.
-      destruct (drop_last req) as [|x X'] eqn:EX'.
-      * (* req = "/" *)
-        simpl in EX. subst req. vm_compute. auto.
-      * assert (x = SLASH) by (destruct Hroot as (r & Er); rewrite Er in EX; simpl in EX; injection EX as -> _; reflexivity).
+      pose proof (ends_with_slash_drop_last up0 E2) as EX.
+      destruct (drop_last up0) as [|x X'] eqn:EX'.
+      * (* prefix ++ req = "/": no prefix and req = "/" *)
+        simpl in EX. rewrite (Hone EX). vm_compute. auto.
+      * assert (x = SLASH) by (destruct Hup0 as (r & Er); rewrite Er in EX; simpl in EX; injection EX as -> _; reflexivity).
         subst x. apply redirect_ok. apply trim_dslash_one. eexists. reflexivity.
     + destruct (if n_dir d then _ else _) as [req1 d1].
       destruct (n_dir d1 || is_hidden fs hide d1); [discriminate|].
-      destruct (first_sibling fs req1 ae gen_static_encodings) as [[sn e]|]; discriminate.
+      destruct (first_sibling fs hide req1 ae gen_static_encodings) as [[sn e]|]; discriminate.
 Qed.
 
-Lemma browse_redirect fs hide pages confs m req ae archive code loc :
-  rooted req -> has_prefix req [SLASH; SLASH] = false ->
-  browse fs hide pages confs m req ae archive = Redirect code loc ->
+Lemma browse_redirect fs hide pages prefix confs m req ae archive code loc :
+  rooted prefix -> rooted req ->
+  browse fs hide pages prefix confs m req ae archive = Redirect code loc ->
   one_slash loc = true /\ same_origin loc = true.
 Proof.
-  intros Hroot Hp H.
-  pose proof (browse_cases fs hide pages confs m req ae archive) as C. cbv zeta in C. rewrite H in C.
+  intros Hpre Hroot H.
+  pose proof (browse_cases fs hide pages prefix confs m req ae archive) as C. cbv zeta in C. rewrite H in C.
   destruct C as [C|[C|[C|[C|[C|C]]]]]; try discriminate.
-  - symmetry in C. apply static_redirect in C; [tauto|exact Hroot].
+  - symmetry in C. apply static_redirect in C; [tauto|exact Hpre|exact Hroot].
   - destruct C as (u & C & Eu & Hends & _). injection C as -> ->.
-    destruct Hroot as (t & ->). subst u. apply redirect_ok. apply one_slash_snoc; [|exact Hends].
-    cbn [one_slash]. rewrite N.eqb_refl. cbn [andb]. destruct t as [|d t']; [reflexivity|].
-    cbn [has_prefix] in Hp. rewrite N.eqb_refl in Hp. cbn [andb] in Hp.
-    rewrite has_prefix_nil in Hp. rewrite andb_true_r in Hp. rewrite Hp. reflexivity.
+    assert (Hu : u = req) by (destruct Hroot as (t & ->); exact Eu). clear Eu. subst u.
+    apply redirect_ok. apply one_slash_snoc; [apply trim_dslash_one; exact Hroot|].
+    destruct (trim_dslash_suffix req) as (pre & E & Hne).
+    rewrite E in Hends. rewrite ends_with_slash_app_suffix in Hends; [exact Hends|].
+    apply Hne. destruct Hroot as (t & ->). discriminate.
   - destruct C as [C _]. discriminate.
   - destruct C as [C _]. discriminate.
 Qed.
@@ -566,11 +606,11 @@ Qed.
 Lemma casketfile_never_served fs hide pages root name cf m req ae h :
   hide_casketfile root (root ++ jail name) = Some h -> In h hide ->
   fs_open fs (jail name) = Some cf ->
-  forall n, serve_file fs hide pages [SLASH] m req ae = Serve n None -> n_id n <> n_id cf.
+  forall n enc, serve_file fs hide pages [SLASH] m req ae = Serve n enc -> n_id n <> n_id cf.
 Proof.
-  intros Hh Hin Hcf n Hs Heq.
+  intros Hh Hin Hcf n enc Hs Heq.
   destruct (hide_casketfile_inside root name) as [E _]. rewrite E in Hh. injection Hh as <-.
-  apply serve_file_serve in Hs as (_ & _ & _ & Hnone). destruct (Hnone eq_refl) as [_ Hnh].
+  apply serve_file_serve in Hs as (_ & _ & _ & _ & Hnh).
   unfold is_hidden, hidden_id in Hnh.
   assert (Ht : existsb (fun h => match fs_open fs h with Some hn => n_id hn =? n_id n | None => false end) hide = true).
   { apply existsb_exists. exists (jail name). split; [exact Hin|]. rewrite Hcf. apply N.eqb_eq. congruence. }
@@ -643,43 +683,38 @@ Proof.
   intros H. destruct (serve_file_serve _ _ _ _ _ _ _ _ _ H) as (Hm & Hin & Hs & _). auto.
 Qed.
 
-Lemma static_plain_body fs hide pages prefix m req ae n :
-  serve_file fs hide pages prefix m req ae = Serve n None ->
+Lemma static_body_regular fs hide pages prefix m req ae n enc :
+  serve_file fs hide pages prefix m req ae = Serve n enc ->
   n_dir n = false /\ is_hidden fs hide n = false.
 Proof.
-  intros H. destruct (serve_file_serve _ _ _ _ _ _ _ _ _ H) as (_ & _ & _ & Hn). apply Hn. reflexivity.
+  intros H. destruct (serve_file_serve _ _ _ _ _ _ _ _ _ H) as (_ & _ & _ & Hn & Hh). auto.
 Qed.
 
-Lemma static_never_hidden_partial fs hide pages prefix m req ae n enc :
-  no_hidden_sibling fs hide ->
+Lemma static_never_hidden fs hide pages prefix m req ae n enc :
   serve_file fs hide pages prefix m req ae = Serve n enc -> is_hidden fs hide n = false.
 Proof.
-  intros Hno H.
-  destruct enc as [e|].
-  - unfold serve_file in H.
-    destruct (is_get_head m); [|discriminate]. simpl negb in H. cbv iota in H.
-    destruct (bad_name req); [discriminate|].
-    destruct (fs_open fs req) as [d|]; [|discriminate].
-    repeat match type of H with
-           | (if ?b then Redirect _ _ else _) = _ => destruct b; [discriminate|]
-           end.
-    destruct (if n_dir d then _ else _) as [req1 d1].
-    destruct (n_dir d1 || is_hidden fs hide d1); [discriminate|].
-    destruct (first_sibling fs req1 ae gen_static_encodings) as [[sn e']|] eqn:Es; [|discriminate].
-    injection H as <- <-.
-    destruct (first_sibling_some _ _ _ _ _ _ Es) as (ext & Hin & _ & Ho).
-    exact (Hno _ _ _ _ Hin Ho).
-  - destruct (serve_file_serve _ _ _ _ _ _ _ _ _ H) as (_ & _ & _ & Hn). apply Hn. reflexivity.
+  intros H. destruct (serve_file_serve _ _ _ _ _ _ _ _ _ H) as (_ & _ & _ & _ & Hh). exact Hh.
 Qed.
 
-Lemma archive_inside_root fs hide pages confs m req ae archive ms :
-  browse fs hide pages confs m req ae archive = Archive ms ->
+Lemma archive_inside_root fs hide pages prefix confs m req ae archive ms :
+  browse fs hide pages prefix confs m req ae archive = Archive ms ->
   forall k, In k ms ->
     In k fs /\ is_desc (jail req) (n_path k) = true /\ has_prefix (n_path k) (jail req) = true.
 Proof.
   intros H k Hk.
-  destruct (archive_sound _ _ _ _ _ _ _ _ _ H k Hk) as [Hin Hd].
+  destruct (archive_sound _ _ _ _ _ _ _ _ _ _ H k Hk) as (Hin & Hd & _).
   split; [exact Hin|]. split; [exact Hd|]. apply is_desc_prefix. exact Hd.
+Qed.
+
+Lemma archive_never_hidden fs hide pages prefix confs m req ae archive ms :
+  browse fs hide pages prefix confs m req ae archive = Archive ms ->
+  forall k, In k ms ->
+    is_hidden fs hide k = false /\
+    (forall a, In a fs -> n_dir a = true -> is_desc (jail req) (n_path a) = true ->
+               is_desc (n_path a) (n_path k) = true -> is_hidden fs hide a = false).
+Proof.
+  intros H k Hk.
+  destruct (archive_sound _ _ _ _ _ _ _ _ _ _ H k Hk) as (_ & _ & Hh & Ha). auto.
 Qed.
 
 (* ---- the whole site: internal -> browse -> static ---- *)
@@ -695,15 +730,15 @@ Qed.
 
 Lemma handle_cases (s : site) (r : request) :
   handle s r = Status 404 \/
-  handle s r = browse (s_fs s) (s_hide s) (s_pages s) (s_browse s) (q_meth r) (q_path r) (q_ae r) (q_archive r).
+  handle s r = browse (s_fs s) (s_hide s) (s_pages s) (s_prefix s) (s_browse s) (q_meth r) (q_path r) (q_ae r) (q_archive r).
 Proof. unfold handle. destruct (internal_blocks (s_internal s) (q_path r)); auto. Qed.
 
-Lemma browse_serve fs hide pages confs m req ae archive n enc :
-  browse fs hide pages confs m req ae archive = Serve n enc ->
-  serve_file fs hide pages [SLASH] m req ae = Serve n enc.
+Lemma browse_serve fs hide pages prefix confs m req ae archive n enc :
+  browse fs hide pages prefix confs m req ae archive = Serve n enc ->
+  serve_file fs hide pages prefix m req ae = Serve n enc.
 Proof.
   intros H.
-  pose proof (browse_cases fs hide pages confs m req ae archive) as C. cbv zeta in C. rewrite H in C.
+  pose proof (browse_cases fs hide pages prefix confs m req ae archive) as C. cbv zeta in C. rewrite H in C.
   destruct C as [C|[C|[C|[C|[C|C]]]]]; try discriminate.
   - symmetry. exact C.
   - destruct C as (u & C & _). discriminate.
@@ -717,66 +752,27 @@ Lemma site_sound (s : site) (r : request) :
   | Serve n enc =>
       is_get_head (q_meth r) = true /\ In n (s_fs s) /\
       served_from (s_pages s) (q_path r) (q_ae r) enc (n_path n) /\
-      (enc = None -> n_dir n = false /\ is_hidden (s_fs s) (s_hide s) n = false) /\
-      (no_hidden_sibling (s_fs s) (s_hide s) -> is_hidden (s_fs s) (s_hide s) n = false)
+      n_dir n = false /\ is_hidden (s_fs s) (s_hide s) n = false
   | Listing kids =>
       forall k, In k kids -> In k (s_fs s) /\ is_child (jail (q_path r)) (n_path k) = true /\
                              is_hidden (s_fs s) (s_hide s) k = false
   | Archive ms =>
       forall k, In k ms -> In k (s_fs s) /\ is_desc (jail (q_path r)) (n_path k) = true /\
-                           has_prefix (n_path k) (jail (q_path r)) = true
+                           has_prefix (n_path k) (jail (q_path r)) = true /\
+                           is_hidden (s_fs s) (s_hide s) k = false
   | Redirect code loc =>
-      rooted (q_path r) -> has_prefix (q_path r) [SLASH; SLASH] = false ->
-      one_slash loc = true /\ same_origin loc = true
+      rooted (s_prefix s) -> rooted (q_path r) -> one_slash loc = true /\ same_origin loc = true
   | Status _ => True
   end.
 Proof.
   destruct (handle_cases s r) as [E|E]; [rewrite E; exact I|].
   destruct (handle s r) as [c|c loc|n enc|kids|ms] eqn:H; [exact I| | | |]; symmetry in E.
-  - intros Hr Hp. eapply browse_redirect; eassumption.
+  - intros Hp Hr. eapply browse_redirect; [exact Hp|exact Hr|exact E].
   - apply browse_serve in E.
-    destruct (serve_file_serve _ _ _ _ _ _ _ _ _ E) as (Hm & Hin & Hs & Hn).
-    repeat split; auto; try (apply Hn; assumption).
-    intros Hno. eapply static_never_hidden_partial; eassumption.
+    destruct (serve_file_serve _ _ _ _ _ _ _ _ _ E) as (Hm & Hin & Hs & Hn & Hh).
+    repeat split; auto.
   - intros k Hk. eapply listing_sound; eassumption.
-  - intros k Hk. eapply archive_inside_root; eassumption.
-Qed.
-
-(* refutation witnesses (the fixture tree the harness serves) *)
-Local Open Scope string_scope.
-Lemma static_never_hidden_refuted :
-  exists fs hide pages req ae n enc,
-  serve_file fs hide pages [SLASH] 0 req ae = Serve n enc /\ is_hidden fs hide n = true.
-Proof.
-  exists fixture_fs, gen_c02_hide, gen_default_index_pages, (bs "/hsib.txt"), (bs "gzip").
-  eexists. eexists. split; vm_compute; reflexivity.
-Qed.
-
-Lemma static_serves_regular_file_refuted :
-  exists fs hide pages req ae n enc,
-  serve_file fs hide pages [SLASH] 0 req ae = Serve n enc /\ n_dir n = true.
-Proof.
-  exists fixture_fs, gen_c02_hide, gen_default_index_pages, (bs "/dir/e"), (bs "gzip").
-  eexists. eexists. split; vm_compute; reflexivity.
-Qed.
-
-Lemma archive_never_hidden_refuted :
-  exists fs hide pages confs req archive ms k,
-  browse fs hide pages confs 0 req [] archive = Archive ms /\ In k ms /\
-  n_dir k = false /\ is_hidden fs hide k = true.
-Proof.
-  exists fixture_fs, gen_c02_hide, gen_default_index_pages,
-         [{| b_scope := [SLASH]; b_types := gen_archive_types |}], [SLASH], (bs "zip").
-  eexists. exists {| n_path := bs "/Casketfile"; n_dir := false; n_id := 12 |}.
-  split; [vm_compute; reflexivity|]. split; [|split; vm_compute; reflexivity].
-  vm_compute. repeat (first [left; reflexivity | right]).
-Qed.
-
-Lemma browse_redirect_same_origin_refuted :
-  exists fs hide pages confs req code loc,
-  rooted req /\ browse fs hide pages confs 0 req [] [] = Redirect code loc /\ same_origin loc = false.
-Proof.
-  exists fixture_fs, gen_c02_hide, gen_default_index_pages,
-         [{| b_scope := [SLASH]; b_types := [] |}], (bs "//evil.example/..").
-  eexists. eexists. split; [eexists; reflexivity|]. split; vm_compute; reflexivity.
+  - intros k Hk.
+    destruct (archive_inside_root _ _ _ _ _ _ _ _ _ _ E k Hk) as (H1 & H2 & H3).
+    destruct (archive_never_hidden _ _ _ _ _ _ _ _ _ _ E k Hk) as (H4 & _). auto.
 Qed.
